@@ -262,6 +262,17 @@ def raise_key_error(msg):
   raise KeyError(msg)
 
 
+def gen_failing_with(n, fail_at, exc, msg, ret='R', tag='A'):
+  """Like gen_range, the failure is exc(msg)."""
+  for i in range(n):
+    if i == fail_at:
+      raise EXC[exc](msg)
+    yield (tag, i)
+  if fail_at is not None and fail_at >= n:
+    raise EXC[exc](msg)
+  return ret
+
+
 def gen_range(n, fail_at=None, ret='R', tag='A'):
   for i in range(n):
     if i == fail_at:
